@@ -246,3 +246,28 @@ func (e *Engine) UFOfString(st *St, name string, s Value, extra []Value) Value {
 	errVal := e.Merge(isErr, opaqueError(e, st, nil, nil), &IfaceV{Alts: []IfaceAlt{{G: e.S.True}}})
 	return &TupleV{V: []Value{val, errVal}}
 }
+
+// ReadGlobal returns the current value of a package-level variable.
+func (e *Engine) ReadGlobal(st *St, pkgPath, name string) Value {
+	for _, p := range e.Prog.AllPackages() {
+		if p.Pkg.Path() == pkgPath {
+			if g, ok := p.Members[name].(*ssa.Global); ok {
+				return e.Load(st, e.ptrTo(e.globalObj(g)), "global "+name)
+			}
+		}
+	}
+	e.unsupported("no global " + pkgPath + "." + name)
+	return nil
+}
+
+// AssertAt records an assertion from engine-side code.
+func (e *Engine) AssertAt(st *St, cond *T, msg string) {
+	e.Asserts = append(e.Asserts, Record{Cond: e.S.And(st.pc, e.S.Not(cond)), Msg: msg, Pos: e.callerPos(), Stack: e.where(), Kind: "assert"})
+}
+
+func (e *Engine) CoverAt(st *St, msg string) {
+	e.Covers = append(e.Covers, Record{Cond: st.pc, Msg: msg, Pos: e.callerPos(), Kind: "cover"})
+}
+
+// Kill ends the path.
+func (e *Engine) Kill(st *St) { st.pc = e.S.False }
